@@ -593,13 +593,22 @@ func (e *Enforcer) BuildRoleLinks() error {
 		}
 	}
 
-	return e.model.BuildRoleLinks(e.rmMap)
+	if err := e.model.BuildRoleLinks(e.rmMap); err != nil {
+		return err
+	}
+	// role definitions with link conditions keep their links in the conditional role managers
+	return e.rebuildConditionalRoleLinks(e.model)
 }
 
 // BuildIncrementalRoleLinks provides incremental build the role inheritance relations.
 func (e *Enforcer) BuildIncrementalRoleLinks(op model.PolicyOp, ptype string, rules [][]string) error {
 	e.invalidateMatcherMap()
-	return e.model.BuildIncrementalRoleLinks(e.rmMap, op, "g", ptype, rules)
+	if err := e.model.BuildIncrementalRoleLinks(e.rmMap, op, "g", ptype, rules); err != nil {
+		return err
+	}
+	// a role definition with link conditions keeps its links in a conditional role manager:
+	// every grouping-policy change has to reach it, not only AddPolicies
+	return e.model.BuildIncrementalConditionalRoleLinks(e.condRmMap, op, "g", ptype, rules)
 }
 
 // BuildIncrementalConditionalRoleLinks provides incremental build the role inheritance relations with conditions.
